@@ -143,15 +143,23 @@ def select__id(self: XPathFunction, context: ta.ContextType = None) \
     elif context is None:
         raise self.missing_context()
 
+    # The argument is a whitespace-separated list of IDs (for a node-set the
+    # list of the string-values of its nodes): an element is selected if its
+    # ID is one of them, the first in document order for a duplicated ID.
     value = self[0].evaluate(context)
+    idrefs = {x for v in (value if isinstance(value, list) else [value])
+              for x in self.string_value(v).split()}
     item = context.item
     if item is None:
         item = context.root
 
     if isinstance(item, (ElementNode, DocumentNode)):
         for element in item.iter_descendants():
-            if isinstance(element, EtreeElementNode) and element.value.get(XML_ID) == value:
-                yield element
+            if isinstance(element, EtreeElementNode):
+                xml_id = element.value.get(XML_ID)
+                if xml_id in idrefs:
+                    idrefs.remove(xml_id)
+                    yield element
 
 
 @method(function('name', nargs=(0, 1), sequence_types=('node()?', 'xs:string')))
